@@ -23,6 +23,7 @@ pub struct HistResult {
     pub mismatch: Option<Mismatch>,
     pub panics: Vec<(String, String)>,
     pub version_violations: Vec<String>,
+    pub order_violations: Vec<String>,
     pub events: Vec<String>,
     pub steps: u64,
     pub bursts: u64,
@@ -57,6 +58,7 @@ pub fn run_history(rng: Rng, profile: Profile, opts: &HistOpts, out: &mut Outcom
         mismatch: None,
         panics: Vec::new(),
         version_violations: Vec::new(),
+        order_violations: Vec::new(),
         events: Vec::new(),
         steps: 0,
         bursts: 0,
@@ -166,6 +168,7 @@ pub fn run_history(rng: Rng, profile: Profile, opts: &HistOpts, out: &mut Outcom
     res.steps = rig.steps;
     res.panics = rig.dx.panics.clone();
     res.version_violations = rig.version_violations.clone();
+    res.order_violations = rig.order_violations.clone();
     res.hash = fnv(rig.events.join("\n").as_bytes()) ^ rig.dx.trace;
     res.events = std::mem::take(&mut rig.events);
     rig.dx.shutdown();
@@ -347,6 +350,11 @@ pub fn report(own: &[&str], res: &HistResult, out: &mut Outcome, case: u64, seed
             out.violation("version-monitor", v.clone(), json!({"case": case, "seed": seed, "events_tail": tail}));
         }
     }
+    if own.contains(&"C10") || own.contains(&"*") {
+        for v in &res.order_violations {
+            out.violation("bus-event-outside-lifetime", v.clone(), json!({"case": case, "seed": seed, "events_tail": tail}));
+        }
+    }
     let _ = describe_input;
     let _ = Op::Sync;
 }
@@ -392,7 +400,7 @@ pub fn run_fault(seed_rng: Rng, profile: Profile, plan: Option<FaultPlan>, out: 
     let mut rig = Rig::new();
     rig.log_on = true;
     let mut gen = Gen::new(seed_rng, profile.clone());
-    let mut res = HistResult { mismatch: None, panics: Vec::new(), version_violations: Vec::new(), events: Vec::new(), steps: 0, bursts: 0, hash: 0, inconclusive: None };
+    let mut res = HistResult { mismatch: None, panics: Vec::new(), version_violations: Vec::new(), order_violations: Vec::new(), events: Vec::new(), steps: 0, bursts: 0, hash: 0, inconclusive: None };
     let mut alive_at = Vec::new();
     let n0 = gen.rng.range(profile.conns.0, profile.conns.1);
     for _ in 0..n0 {
